@@ -20,6 +20,7 @@ M = [
  ("c01-ord-before-partial-ord", ["C01"], CO, "    cmp.partial_ord.push_bounds_to(use_bounds, wcb);\n    if let Some(by) = &cmp.partial_ord.by {\n        return Ok(quote! {\n            {\n                fn #fn_ident(\n                    this: &#ty,\n                    other: &#ty,\n                    partial_cmp", "    if let Some(key) = &cmp.ord.key {\n        return Ok(key.build_partial_cmp_expr(this, other));\n    }\n    cmp.partial_ord.push_bounds_to(use_bounds, wcb);\n    if let Some(by) = &cmp.partial_ord.by {\n        return Ok(quote! {\n            {\n                fn #fn_ident(\n                    this: &#ty,\n                    other: &#ty,\n                    partial_cmp"),
  ("c01-reverse-dropped-ord", ["C01", "C02"], CO, "if field.hattrs.cmp.is_reverse(op)? {\n                expr = quote!(::core::cmp::Ordering::reverse(#expr));\n            }", "if field.hattrs.cmp.is_reverse(op)? && false {\n                expr = quote!(::core::cmp::Ordering::reverse(#expr));\n            }"),
  ("c01-to-index-other-swapped", ["C01"], CO, "::core::cmp::Ord::cmp(&to_index(this), &to_index(other))", "::core::cmp::Ord::cmp(&to_index(other), &to_index(this))"),
+ ("c01-fieldless-eq-false", ["C01"], CO, "        Ok(if exprs.is_empty() {\n            quote!(true)", "        Ok(if exprs.is_empty() {\n            quote!(false)"),
  ("c05-bad-flag-removed", ["C05"], CO, "                bad_flag(CompareOp::PartialOrd, CompareOp::Ord)?;\n                bad_flag(CompareOp::PartialEq, CompareOp::Ord)?;\n                bad_flag(CompareOp::Eq, CompareOp::Ord)?;", "                bad_flag(CompareOp::PartialOrd, CompareOp::Ord)?;\n                bad_flag(CompareOp::Eq, CompareOp::Ord)?;"),
  ("c05-question-mark-on-builder", ["C05"], IT, "DeriveItemKind::Clone => build_clone_for_struct(item, &e, &fields),", "DeriveItemKind::Clone => Ok(build_clone_for_struct(item, &e, &fields)?),"),
  ("c06-hash-key-from-partial-eq", ["C06"], CO, "    cmp.eq.push_bounds_to(use_bounds, wcb);\n    if let Some(key) = &cmp.eq.key {\n        return Ok(key.build_hash_stmt(this));\n    }", "    cmp.eq.push_bounds_to(use_bounds, wcb);\n    if let Some(key) = &cmp.partial_eq.key {\n        return Ok(key.build_hash_stmt(this));\n    }"),
